@@ -5,7 +5,9 @@
 EXTENDS PathDB, Json
 
 CONSTANTS Depth,        \* 0: exhaustive search; > 0: simulation, behaviours of Depth actions are printed
-          MaxReads      \* reads per reader object explored
+          MaxReads,     \* reads per reader object explored
+          MaxDiffKeys,  \* keys changed by one transition (exploration bound)
+          SlotKeys      \* the keys the harness maps to storage slots of its contract account
 
 VARIABLES act, hist, nreads
 
@@ -28,14 +30,16 @@ MCInit == Init /\ act = [op |-> "init"] /\ hist = <<>> /\ nreads = [rd \in Reade
 
 Lab(a) == act' = a
 
-DeadRoots == World \ LiveRoots
+(* parents worth trying that are not available: states that were layers once *)
+DeadRoots == ({objs[o].root : o \in 1..Len(objs)} \cup {EmptyWorld}) \ LiveRoots
+Diffs(p)  == {d \in DiffsOn(p) : Cardinality(DOMAIN d) <= MaxDiffKeys}
 
 MCStep ==
-  \/ \E p \in LiveRoots : \E d \in DiffsOn(p) :
+  \/ \E p \in LiveRoots : \E d \in Diffs(p) :
         \/ Update(p, d) /\ Lab([op |-> "Update", p |-> p, d |-> d, res |-> "ok"]) /\ UNCHANGED nreads
         \/ UpdateNoop(p, d) /\ Lab([op |-> "Update", p |-> p, d |-> d, res |-> UpdateResult(p, d)]) /\ UNCHANGED nreads
   \/ \E p \in LiveRoots : UpdateNoop(p, NoData) /\ Lab([op |-> "Update", p |-> p, d |-> NoData, res |-> "cycle"]) /\ UNCHANGED nreads
-  \/ \E p \in DeadRoots : \E d \in DiffsOn(p) :
+  \/ \E p \in DeadRoots : \E d \in Diffs(p) :
         UpdateNoop(p, d) /\ Lab([op |-> "Update", p |-> p, d |-> d, res |-> UpdateResult(p, d)]) /\ UNCHANGED nreads
   \/ \E r \in LiveRoots : \E n \in 0..MaxObjs :
         \/ \E f \in BOOLEAN : CapBegin(r, n, f) /\ Lab([op |-> "CapBegin", r |-> r, n |-> n, full |-> f]) /\ UNCHANGED nreads
@@ -51,7 +55,7 @@ MCStep ==
                              \/ ReadNode(rd, k) /\ Lab([op |-> "ReadNode", rd |-> rd, k |-> k, res |-> readers'[rd].res])
                           /\ nreads' = [nreads EXCEPT ![rd] = @ + 1]
         \/ ReadVal(rd) /\ Lab([op |-> "ReadVal", rd |-> rd, res |-> readers'[rd].res]) /\ UNCHANGED nreads
-        \/ ReadAgain(rd) /\ Lab([op |-> "ReadAgain", rd |-> rd]) /\ UNCHANGED nreads
+        \/ nreads[rd] < MaxReads /\ ReadAgain(rd) /\ Lab([op |-> "ReadAgain", rd |-> rd]) /\ UNCHANGED nreads
         \/ CloseReader(rd) /\ Lab([op |-> "CloseReader", rd |-> rd]) /\ UNCHANGED nreads
 
 MCNext == MCStep /\ hist' = IF Depth = 0 THEN hist ELSE Append(hist, [act |-> act', st |-> Proj'])
@@ -69,6 +73,17 @@ SimBias == /\ (act'.op = "Update" /\ act'.res # "ok") => act.op # "Update"
            /\ act'.op = "CloseReader" => act.op # "OpenReader"
 (* the last step of a printed behaviour is not an Update (TLC prints one line per successor of *)
 (* the last state; updates have many successors and add nothing at the end of a behaviour)     *)
+(* The harness removes the contract account when all its slots become 0; StateDB then walks  *)
+(* the flat storage with a pathdb iterator, and iterator construction waits for a pending     *)
+(* background flush (newFastIterator -> diskLayer.waitFlush).  Such an update is therefore    *)
+(* not scheduled while a flush is pending.                                                    *)
+Wipes(p, d) == /\ \E k \in SlotKeys : p[k] # 0
+               /\ \A k \in SlotKeys : Apply(p, d)[k] = 0
+NoWipeWhileFlushing == (act'.op = "Update" /\ act'.res \in {"ok", "dup", "dupdisk"} /\ Wipes(act'.p, act'.d))
+                          => ~(frozen.present /\ ~frozen.done)
+(* reader-focused sampling: once a reader is parked between its two steps only cap, flush   *)
+(* and the reader itself move, so that the second step is reached within the behaviour       *)
+ReaderFocus == (\E rd \in Readers : readers[rd].pc = "tip") => act'.op \notin {"Update", "CapNoop", "OpenReader"}
 FinalStep == (Depth > 0 /\ Len(hist) = Depth - 1) => act'.op # "Update"
 Emit == IF Depth > 0 /\ Len(hist) = Depth
         THEN PrintT(<<"MBT", ToJson([keys |-> Key, init |-> [async |-> hist[1].st.async], steps |-> hist])>>)
